@@ -56,6 +56,9 @@ def t_rename_zones(rng, pr):
     new = {}
     pool = ["Zeta", "Mill", "Alpha", "Unit 7", "Dryer", "K", "North", "Boiler house"]
     rng.shuffle(pool)
+    if rng.random() < 0.5:
+        # names that look like the unit-operation zones the preparation generates itself
+        pool = rng.sample(["O1", "O2", "O3"], k=3) + pool
     for l, n in zip(labels, pool):
         new[l] = n
     for s in q["streams"]:
@@ -258,7 +261,7 @@ def curve_diff(A, B):
 
 
 def gen_base(rng):
-    labels = rng.choice([["A"], ["A", "B"], ["A", "B", "C"], ["A/X", "A/Y", "B"]])
+    labels = rng.choice([["A"], ["A", "B"], ["A", "B", "C"], ["A/X", "A/Y", "B"], ["A", "A/X", "B"], ["A", "A/X"]])
     pr = P.gen_problem(rng, labels=labels, with_tree=(rng.random() < 0.25), name_clash_p=0.0,
                        util_kind=rng.choice(["none", "none", "outside", "ladder", "mixed"]))
     if rng.random() < 0.3:
